@@ -354,3 +354,60 @@ class normalize_chunks_ints_rank2:
                 for c0 in (-1, 1, 2, 5):
                     for c1 in (-1, 1, 3):
                         yield {"chunks": (c0, c1), "shape": (s0, s1)}
+
+
+SW = "dask_array/reductions/_sliding_window.py"
+
+
+def _swr(keepdims):
+    @contract(f"{SW}::SlidingWindowReduction.chunks", spec=f"rank1-keepdims={keepdims}", props=["C19", "C03"])
+    class swr_chunks:
+        """advertised chunks of the native sliding-window reduction: the input's chunks clipped to the
+        (n - window + 1) outputs -- a chunking of exactly that length, each block no larger than its input block"""
+        params = {"self": "obj:SWR"}
+        result = "tup:seq" if not keepdims else "tup:seq,seq"
+        fields = {"SWR": {"array": "obj:Arr", "sliding_axis": "const", "window": "int", "keepdims": "const", "window_axis": "const"},
+                  "Arr": {"chunks": "tup:seq"}}
+        consts = {"self.sliding_axis": 0, "self.keepdims": keepdims, "self.window_axis": 1}
+
+        def requires(self):
+            c = S.item(self.get("array").get("chunks"), 0)
+            return S.And(S.slen(c) >= 1, S.chunking(c), S.forall_idx(c, lambda j: S.at(c, j) >= 1), self.get("window") >= 1)
+
+        def facts(self):
+            return [("prefix_nonneg", S.item(self.get("array").get("chunks"), 0))]
+
+        def post_hints(result, self):
+            return {"trimmed-sum-nonneg": ("lemma", "prefix_nonneg", S.item(result, 0))}
+
+        def ensures(result, self):
+            c = S.item(self.get("array").get("chunks"), 0)
+            w = self.get("window")
+            r = S.item(result, 0)
+            out = {
+                "sum": S.ssum(r) == S.max_(0, S.ssum(c) - w + 1),
+                "positive": S.forall_idx(r, lambda j: S.at(r, j) >= 1),
+                "clipped": S.And(S.slen(r) <= S.slen(c), S.forall_idx(r, lambda j: S.at(r, j) <= S.at(c, j))),
+            }
+            if keepdims:
+                k = S.item(result, 1)
+                out["window-axis"] = S.And(S.slen(k) == 1, S.lazy_implies(S.slen(k) == 1, lambda: S.at(k, 0) == 1))
+            return out
+
+        loops = {
+            "for#1": Loop(invariant=lambda v, v0: {
+                "remaining": v.remaining + S.ssum(v.trimmed) == v0.remaining,
+                "len": S.slen(v.trimmed) == v.it,
+                "positive": S.forall_idx(v.trimmed, lambda j: S.And(S.at(v.trimmed, j) >= 1,
+                                                                      S.at(v.trimmed, j) <= S.at(S.item(v.chunks, 0), j))),
+                "live": S.Or(v.it == 0, v.remaining >= 0),
+                "unclipped-so-far": S.Implies(v.remaining > 0, S.ssum(v.trimmed) == S.prefix(S.item(v.chunks, 0), v.it)),
+            }),
+        }
+
+    swr_chunks.__name__ = f"swr_chunks_{keepdims}"
+    return swr_chunks
+
+
+SWR_F = _swr(False)
+SWR_T = _swr(True)
